@@ -234,7 +234,13 @@ func (r *RootExpr) Finalize() {
 func (m MetaExpr) Dup() MetaExpr {
 	d := make(MetaExpr, len(m))
 	for k, v := range m {
-		d[k] = v
+		if v == nil {
+			d[k] = nil
+			continue
+		}
+		vals := make([]string, len(v))
+		copy(vals, v)
+		d[k] = vals
 	}
 	return d
 }
